@@ -145,6 +145,8 @@ SummaryZones == {"alldocs", "childtable", "summarypage"}
 DocSinks == { S(z, "text", FALSE) : z \in SummaryZones \cup {"docstring"} }
 XrefSinks == DocSinks \cup { S(z, "url", FALSE) : z \in SummaryZones \cup {"docstring"} }
 
+ImageTag == [png |-> "img", pdf |-> "img", PNG |-> "img", svg |-> "object", SVG |-> "object", webm |-> "object"]
+
 Feed(k, s, r) == [kind |-> k, zone |-> s.zone, ctx |-> s.ctx, quoted |-> s.quoted, route |-> r]
 
 NameRoute(s) == IF s.quoted THEN "stanurl" ELSE "stan"
@@ -186,9 +188,19 @@ Feeds ==
   \* @deprecated(Version(...), replacement="text"): shown in the ".. deprecated::" box above the docstring
   \*   (objectExtras, pages/__init__.py:326); a line separator in the text changes nothing (payload class linesep)
   \cup { Feed("deprecated", S("docstring", "text", FALSE), "rstquote") }
-  \* ".. image:: x.png / x.svg" with ":alt: text" in a reST docstring: alt attribute of <img>, content of <object>
-  \cup { Feed("imagealt", S("docstring", "attr", FALSE), "docutils") }
-  \cup { Feed("imagealt", S("docstring", "text", FALSE), "docutils") }
+  \* ".. image:: picture.EXT" with ":alt: text" in a reST docstring, one kind per image type: the writer picks the tag
+  \*   from the extension of the uri compared in lower case (html4css1.visit_image, object_image_types = .svg .swf
+  \*   .mp4 .webm .ogg - .pdf is NOT one of them): alt attribute of <img>, or content of <object>, which
+  \*   node2stan.HTMLTranslator.visit_image encodes first (fix 0ba83bd)
+  \cup { Feed("imagealt." \o e, S("docstring", IF ImageTag[e] = "img" THEN "attr" ELSE "text", FALSE), "docutils") : e \in DOMAIN ImageTag }
+  \* ".. image:: TEXT.svg" without :alt: - the uri is the data attribute and (there being no alt) the content of <object>
+  \cup { Feed("imageuri.svg", S("docstring", c, FALSE), "docutils") : c \in {"attr", "text"} }
+  \* a module two packages deep whose OUTER package sets `__docformat__ = "plaintext"`, documented together with a root
+  \*   module that imports from it, under both orders of the roots on the command line: System.getProcessedModule
+  \*   processes ALL enclosing packages first, outermost first (model.py, recursive call), so the docformat is known
+  \*   when docstrings are parsed while the AST is built - plaintext, like doc.plaintext
+  \cup { Feed("nested.plaintext." \o o, S(z, "text", FALSE), "docutils") : o \in {"appfirst", "pkgfirst"}, z \in SummaryZones }
+  \cup { Feed("nested.plaintext." \o o, S("docstring", "text", FALSE), "stan") : o \in {"appfirst", "pkgfirst"} }
   \* docstrings of a class / its method / a function defined in a `__docformat__ = "plaintext"` module and re-exported
   \*   by a restructuredtext package: the docformat is the one of the module the docstring is written in
   \*   (Documentable.definingMod, epydoc2stan._get_docformat, fix 01dfc09) - plaintext, like doc.plaintext
@@ -213,7 +225,7 @@ HasParse(r) == \E i \in 1..Len(r) : IsParse(r[i])
 Cut(r) == SubSeq(r, 1, FirstParse(r) - 1) \o <<"ParseXmlFails">>
 \* which fallback the caller of the failing html2stan has
 Elided(f) == f.zone \in SummaryZones \cup {"signature"}      \* format_summary_fallback, format_signature
-             \/ f.ctx \in {"url", "attr"}                    \* links, images are gone with the parsed docstring
+             \/ (f.ctx \in {"url", "attr"} /\ f.zone # "docstring")   \* links, images are gone with the parsed summary
              \/ f.kind = "deprecated"                       \* objectExtras: fallback is BROKEN (pages/__init__.py:334)
 RouteSeq(f, cls) ==
   LET r == Routes[f.route] IN
@@ -245,7 +257,10 @@ Observable == {"DocutilsEncode", "ParseXml", "FlattenInner"}   \* stages the har
 Rng(s) == {s[i] : i \in DOMAIN s}
 StepsOf(f, cls) == { <<x.stage, x.lin, x.lout>> : x \in {y \in Rng(Flow(f, cls)) : y.stage \in Observable} }
 ModelSteps(k, cls) == UNION { StepsOf(f, cls) : f \in {g \in Feeds : g.kind = k /\ Active(g, cls)} }
-ModelSinks(k, cls) == { <<f.zone, f.ctx, f.quoted, Final(f, cls)>> :
+\* after the plaintext fallback of a whole docstring what was an attribute / a link target is shown as its text
+SinkCtx(f, cls) == IF cls = "xmlbreak" /\ HasParse(Routes[f.route]) /\ f.ctx \in {"url", "attr"} /\ f.zone = "docstring"
+                   THEN "text" ELSE f.ctx
+ModelSinks(k, cls) == { <<f.zone, SinkCtx(f, cls), f.quoted, Final(f, cls)>> :
                           f \in {g \in Feeds : g.kind = k /\ Active(g, cls) /\ Reaches(g, cls)} }
 
 \* observed flows handed in by the harness:
@@ -294,7 +309,7 @@ SameAsWalk == (Source = "enum" /\ Done) => hist = [i \in DOMAIN Flow(pair, cls) 
                   <<Flow(pair, cls)[i].stage, Flow(pair, cls)[i].lin, Flow(pair, cls)[i].lout>>]
 
 EmitEnum == (Source = "enum" /\ Done) =>
-  PrintT(ToJson([kind |-> pair.kind, zone |-> pair.zone, ctx |-> pair.ctx, quoted |-> pair.quoted, cls |-> cls,
+  PrintT(ToJson([kind |-> pair.kind, zone |-> pair.zone, ctx |-> SinkCtx(pair, cls), quoted |-> pair.quoted, cls |-> cls,
                  route |-> pair.route, stages |-> hist, final |-> level, reaches |-> cont = "file",
                  parsedRaw |-> parsedRaw, steps |-> {h \in Rng(hist) : h[1] \in Observable}]))
 
